@@ -99,7 +99,7 @@ def main():
         n_viol += 1
         print(f'[{prop}] violation at seed {s["seed"]}: {vclass}: {msg[:300]}', flush=True)
         # confirm determinism: the recorded tape must reproduce the violation
-        res2 = run_case(case, monitors=spec.monitors(case))
+        res2 = spec.execute(case)
         if vclass not in [v[0] for v in res2.violations]:
             print(f'HARNESS-ERROR: violation at seed {s["seed"]} did not reproduce from its recorded tape '
                   f'(nondeterminism in the simulator)')
@@ -114,7 +114,7 @@ def main():
                 reported.add(k['id'])
                 known_lines.append(f'KNOWN-FINDING: property={prop} {k["id"]}: {k["description"]}')
             continue
-        res3 = run_case(small, monitors=spec.monitors(small))
+        res3 = spec.execute(small)
         msg3 = next((v[1] for v in res3.violations if v[0] == vclass), msg)
         path = batch.write_replay(prop, small, vclass, msg3, s['seed'],
                                   {'original_seed': s['seed'], 'shrink_tries': mn.tries})
